@@ -291,4 +291,66 @@ MUTANTS = [
      '        state = self.__dict__.copy()\n        state["_model"] = self._model()\n        state["_outdated"] = False\n        return state\n'),
     ("C15-set-inputs-unguarded", "liesel/model/nodes.py",
      "    @no_model_method\n    def set_inputs(", "    def set_inputs("),
+    # ------------------------------------------------------------------ C02
+    ("C02-log-prior-selects-observed", "liesel/model/model.py",
+     "        inputs = (v.dist_node for v in _vars if v.has_dist and v.parameter)\n",
+     "        inputs = (v.dist_node for v in _vars if v.has_dist and v.observed)\n"),
+    ("C02-log-prob-drops-bare-dist-nodes", "liesel/model/model.py",
+     "        inputs = (n for n in nodes if isinstance(n, Dist))\n        node = Calc(\n            _reduced_sum, *inputs, _name=\"_model_log_prob\"",
+     "        inputs = (n for n in nodes if isinstance(n, Dist) and n.var is not None)\n        node = Calc(\n            _reduced_sum, *inputs, _name=\"_model_log_prob\""),
+    ("C02-reduced-sum-without-reduction", "liesel/model/model.py",
+     '    reduced = (arg.sum() if hasattr(arg, "sum") else arg for arg in args)\n', "    reduced = args\n"),
+    ("C02-dist-sums-when-per-obs", "liesel/model/nodes.py",
+     """        log_prob = self.init_dist().log_prob(self.at.value)
+
+        if not self.per_obs and hasattr(log_prob, "sum"):
+            log_prob = log_prob.sum()
+
+        self._value = log_prob""",
+     """        log_prob = self.init_dist().log_prob(self.at.value)
+
+        if self.per_obs and hasattr(log_prob, "sum"):
+            log_prob = log_prob.sum()
+
+        self._value = log_prob"""),
+    ("C02-user-log-lik-node-ignored", "liesel/model/model.py",
+     '        if self.log_lik_node:\n            self.add(TransientIdentity(self.log_lik_node, _name="_model_log_lik"))\n            return self\n', ""),
+    ("C02-log-lik-counts-unflagged-vars", "liesel/model/model.py",
+     "        inputs = (v.dist_node for v in _vars if v.has_dist and v.observed)\n",
+     "        inputs = (v.dist_node for v in _vars if v.has_dist and not v.parameter)\n"),
+    ("C02-transient-dist-never-sums", "liesel/model/nodes.py",
+     """        log_prob = self.init_dist().log_prob(self.at.value)
+
+        if not self.per_obs and hasattr(log_prob, "sum"):
+            log_prob = log_prob.sum()
+
+        return log_prob""",
+     """        log_prob = self.init_dist().log_prob(self.at.value)
+
+        return log_prob"""),
+    # ------------------------------------------------------------------ C14
+    ("C14-instance-path-forgets-invert", "liesel/model/nodes.py",
+     "    bijector_inv = jb.Invert(bijector_inst)\n\n    def transform_dist(*args, **kwargs):\n        return jd.TransformedDistribution(InputDist(*args, **kwargs), bijector_inv)",
+     "    bijector_inv = jb.Invert(bijector_inst)\n\n    def transform_dist(*args, **kwargs):\n        return jd.TransformedDistribution(InputDist(*args, **kwargs), bijector_inst)"),
+    ("C14-instance-path-initial-value-uses-forward", "liesel/model/nodes.py",
+     "        bijector_inv.forward(var.value),\n        transformed_dist,",
+     "        bijector_inst.forward(var.value),\n        transformed_dist,"),
+    ("C14-instance-path-back-transform-uses-inverse", "liesel/model/nodes.py",
+     "    var.value_node = Calc(bijector_inst.forward, transformed_var)\n",
+     "    var.value_node = Calc(bijector_inst.inverse, transformed_var)\n"),
+    ("C14-parameter-flag-not-moved", "liesel/model/nodes.py",
+     "        tvar.parameter = self.parameter  # type: ignore\n        self.parameter = False\n", "        self.parameter = False\n"),
+    ("C14-instance-path-per-obs-not-copied", "liesel/model/nodes.py",
+     "    transformed_dist.per_obs = var.dist_node.per_obs\n", ""),
+    ("C14-original-keeps-distribution", "liesel/model/nodes.py",
+     "        self.parameter = False\n        self.dist_node = None\n\n        return tvar",
+     "        self.parameter = False\n\n        return tvar"),
+    ("C14-class-path-back-transform-uses-forward", "liesel/model/nodes.py",
+     "        bijector = transform_dist(dist_inputs, bijector_inputs).bijector\n        return bijector.inverse(value)\n",
+     "        bijector = transform_dist(dist_inputs, bijector_inputs).bijector\n        return bijector.forward(value)\n"),
+    ("C14-class-path-bijector-args-frozen-at-transform-time", "liesel/model/nodes.py",
+     "    bijector_inputs = InputGroup(*args, **kwargs)\n\n    # define distribution \"class\" for the transformed var\n    def transform_dist(dist_args: ArgGroup, bijector_args: ArgGroup):\n        tfp_dist = InputDist(*dist_args.args, **dist_args.kwargs)\n        bjargs, bjkwargs = bijector_args.args, bijector_args.kwargs\n",
+     "    bijector_inputs = InputGroup(*args, **kwargs)\n    frozen_args = bijector_inputs.value\n\n    # define distribution \"class\" for the transformed var\n    def transform_dist(dist_args: ArgGroup, bijector_args: ArgGroup):\n        tfp_dist = InputDist(*dist_args.args, **dist_args.kwargs)\n        bjargs, bjkwargs = frozen_args.args, frozen_args.kwargs\n"),
+    ("C14-deprecated-path-parameter-flag-not-moved", "liesel/model/model.py",
+     "        var_transformed.parameter = var.parameter\n", ""),
 ]
